@@ -59,6 +59,7 @@ class Env(object):
         self.no_missing = no_missing   # bound: value fields are assumed not to be all ones
         self.canonical_only = False
         self.in_range = False
+        self.string_width_exact = False   # character differences of exactly the field width (what an uncompressed field can hold)
 
     def is_missing(self, v, n):
         """Is the n-bit field v all ones?  (Under no_missing the all-ones case is excluded from the run.)"""
@@ -246,7 +247,7 @@ class Reference(object):
             return [mn] * self.n_subsets
         if not self.env.truth(mn == b'\0' * nbytes):
             raise RefMalformed('character column with differences and a non-zero base')
-        if self.env.canonical_only and w != nbytes:
+        if (self.env.canonical_only or self.env.string_width_exact) and w != nbytes:
             self.env.ctx.assume(False)   # entries of exactly the field width only
         col[4] = [self._bytes(w) for _ in range(self.n_subsets)]
         return list(col[4])
@@ -597,11 +598,13 @@ class Reference(object):
 
 
 def reference_decode(ctx, ids, bits, n_subsets=1, compressed=False, pos=0, tables=None,
-                     max_factor=3, max_diff_width=64, no_missing=False, inline_sequences=False, canonical_only=False, in_range=False):
+                     max_factor=3, max_diff_width=64, no_missing=False, inline_sequences=False, canonical_only=False, in_range=False,
+                     string_width_exact=False):
     B, D = tables or load_tables()
     env = Env(ctx, max_factor=max_factor, max_diff_width=max_diff_width, no_missing=no_missing)
     env.canonical_only = canonical_only
     env.in_range = in_range
+    env.string_width_exact = string_width_exact
     ref = Reference(B, D, env, bits, pos=pos, n_subsets=n_subsets, compressed=compressed)
     ref.inline_sequences = inline_sequences
     ref.run(ids)
